@@ -39,6 +39,10 @@ def events(tier):
         for lo, p in prefixes:
             for s in subsets:
                 evs.append({"cfg": cfg, "lo": lo, "sp": p, "comps": list(s)})
+                # the same event with the time list written in another order than the loop order (the prefix the statement
+                # speaks of is the prefix of the *loop order*)
+                if p == 2 and (tier != "quick" or len(s) <= 1):
+                    evs.append({"cfg": cfg, "lo": lo, "sp": p, "comps": list(s), "trev": True})
     return evs
 
 
@@ -67,6 +71,8 @@ def build_yaml(hist):
         lo[t] = list(ev["lo"])
         space = [] if ev["sp"] is None else ev["lo"][ev["sp"]:]
         time = ev["lo"] if ev["sp"] is None else ev["lo"][:ev["sp"]]
+        if ev.get("trev"):
+            time = list(reversed(time))
         st[t] = {"space": list(space), "time": list(time)}
         b = [{"config": ev["cfg"], "prefix": "tmp/" + t}]
         for c in ev["comps"]:
